@@ -21,5 +21,8 @@ pub unsafe fn transmute<T, U>(x: &[T]) -> &[U] {
 
 pub unsafe fn transmute_mut<T, U>(x: &mut [T]) -> &mut [U] {
     transmute::<T, U>(x); // For the error checking.
-    slice::from_raw_parts_mut(x.as_ptr() as *mut U, relative_size_of_mult::<T, U>(x.len()))
+    slice::from_raw_parts_mut(
+        x.as_mut_ptr() as *mut U,
+        relative_size_of_mult::<T, U>(x.len()),
+    )
 }
